@@ -25,12 +25,9 @@ var (
 	}
 	prototypeValueDate = dateObject{
 		epoch: 0,
-		isNaN: false,
+		isNaN: true, // 15.9.5: the time value of the Date prototype object is NaN
 		time:  time.Unix(0, 0).UTC(),
-		value: Value{
-			kind:  valueNumber,
-			value: 0,
-		},
+		value: NaNValue(),
 	}
 	// 15.10.6: the RegExp prototype object is itself a regular expression (it
 	// matches the empty string); without a compiled pattern exec / test / match /
